@@ -5,6 +5,7 @@ import (
 	"encoding/xml"
 	"errors"
 	"fmt"
+	"math"
 	"strconv"
 )
 
@@ -299,7 +300,7 @@ func (d *Document) SetPageSize(size PageSize) error {
 
 // SetCustomPageSize 设置自定义页面大小（毫米）
 func (d *Document) SetCustomPageSize(width, height float64) error {
-	if width <= 0 || height <= 0 {
+	if math.IsNaN(width) || math.IsNaN(height) || width <= 0 || height <= 0 {
 		return WrapError("SetCustomPageSize", errors.New("页面尺寸必须大于0"))
 	}
 
@@ -417,6 +418,10 @@ func (s *SectionProperties) ElementType() string {
 func validatePageSettings(settings *PageSettings) error {
 	// 验证页面尺寸
 	if settings.Size == PageSizeCustom {
+		// NaN 使下面所有比较都为 false，必须单独拒绝，否则会把 w:w="NaN" 写入文档
+		if math.IsNaN(settings.CustomWidth) || math.IsNaN(settings.CustomHeight) {
+			return errors.New("自定义页面尺寸必须是有效数字")
+		}
 		if settings.CustomWidth <= 0 || settings.CustomHeight <= 0 {
 			return errors.New("自定义页面尺寸必须大于0")
 		}
